@@ -339,3 +339,14 @@ func vLogErr(tag string, err error) {
 
 // vUTF8: is s valid UTF-8 (uninterpreted for the solver)
 func vUTF8(s string) bool { return utf8.ValidString(s) }
+
+// vGarbage: bytes that are not a well-formed CBOR data item (family F2): for
+// the solver an opaque buffer that every CBOR scan rejects; natively 0xff
+// (a lone break code) repeated, or nothing.
+func vGarbage(name string, lo, hi int) []byte {
+	b := vBlobN(name, lo, hi)
+	for i := range b {
+		b[i] = 0xff
+	}
+	return b
+}
